@@ -11,7 +11,18 @@
 //!     (or argument, constant, default) the printed value comes from and the type it was stored in — two spellings
 //!     alias iff the model resolves them to the same variable, and the value shows the type (10n.25 prints as 10n
 //!     in an INTEGER/LONG, as 10n.25 in a SINGLE/DOUBLE; strings vs numbers).
-//! Independent property oracles (no model involved) check the documented rules directly on the real code.
+//! Independent property oracles (no model involved) check the documented rules directly on the real code:
+//!   * fixed rule programs (`property_oracles`), the DEFtype table, `CaseInsensitiveString` on names of up to 40
+//!     characters;
+//!   * the default type of a bare name *at its position* (`deftype_position_family`): 0-3 DEFtype statements anywhere
+//!     among the top-level items, bare and suffixed spellings before / between / after them and inside SUBs; the
+//!     prescribed verdict and output come from a textual rule (`default_type_at`) and a store keyed by
+//!     (activation, name, type), the observation is the whole-text parse + lint + run (values that print
+//!     differently in each of the five types);
+//!   * letter case (`case_family`): one fragment per kind of identifier (variable, string variable, array, SUB,
+//!     FUNCTION, parameters, labels, TYPE, field, CONST, SHARED, AS-type variable) with names of 1..40 characters,
+//!     every occurrence re-cased; the output must be the fixed one (= that of the uniformly spelt text).
+//! Failures of these are shrunk (lines / fragments / occurrences / single letters) before they are reported.
 
 use rb_harness::driver::ask;
 use rb_harness::json::J;
@@ -1090,17 +1101,23 @@ fn random_script(rng: &mut Rng) -> Vec<Item> {
 // property oracles on the real code alone (the documented rules, no model)
 // ------------------------------------------------------------------------------------------------
 
-fn oracle(rep: &mut Report, sig: &str, text: String, want: String, note: &str) {
-    rep.case(Some(format!("oracle:{}", text)));
-    rep.bump("oracle.programs");
-    let got = match parse_text(&text) {
+/// What the real code shows for a program text (whole-text parse, lint, code generation, in-memory run):
+/// `rejected <LintError>`, `broken <why>`, or the printed lines joined with `|`.
+fn observe(text: &str) -> String {
+    match parse_text(text) {
         Ok(program) => match real_lint_and_run(program, true) {
             (RealVerdict::Accepted(_), out) => out.unwrap_or_default(),
             (RealVerdict::Rejected(e), _) => format!("rejected {}", e),
             (RealVerdict::Broken(b), _) => format!("broken {}", b),
         },
         Err(e) => format!("broken {}", e),
-    };
+    }
+}
+
+fn oracle(rep: &mut Report, sig: &str, text: String, want: String, note: &str) {
+    rep.case(Some(format!("oracle:{}", text)));
+    rep.bump("oracle.programs");
+    let got = observe(&text);
     let ok = if want == "rejected" { got.starts_with("rejected ") } else { got == want };
     if !ok {
         rep.fail(Failure {
@@ -1253,6 +1270,942 @@ fn property_oracles(rep: &mut Report) {
 }
 
 // ------------------------------------------------------------------------------------------------
+// behavioural oracles, no model, whole-text parse: (a) the default type of a bare name at its position
+// ------------------------------------------------------------------------------------------------
+
+/// The property's rule, read off the program text: the default type of a bare name on line `at` is the type of
+/// the last DEFtype statement among the lines before it whose letter ranges cover the name's first letter
+/// (letter case is irrelevant); SINGLE when there is none.
+fn default_type_at(lines: &[String], at: usize, name: &str) -> Q {
+    let first = name.as_bytes()[0].to_ascii_uppercase();
+    let mut q = Q::Sng;
+    for line in &lines[..at] {
+        let up = line.trim().to_ascii_uppercase();
+        for k in ALLQ {
+            let Some(rest) = up.strip_prefix(k.def_kw()) else { continue };
+            if !rest.starts_with(' ') {
+                continue;
+            }
+            for r in rest.split(',') {
+                let b = r.trim().as_bytes();
+                let (lo, hi) = match b.len() {
+                    1 => (b[0], b[0]),
+                    3 if b[1] == b'-' => (b[0], b[2]),
+                    _ => continue,
+                };
+                if lo <= first && first <= hi {
+                    q = k;
+                }
+            }
+        }
+    }
+    q
+}
+
+/// values whose printed form tells the five types apart: `t.75` (INTEGER / LONG print t+1), `t`, 16777217 (a SINGLE
+/// holds 16777216, an INTEGER overflows), `"s<t>"`
+#[derive(Clone, Debug, PartialEq)]
+enum DVal {
+    Frac(u32),
+    Whole(u32),
+    Big,
+    Text(u32),
+}
+
+/// one line of a default-type script
+#[derive(Clone, Debug, PartialEq)]
+enum DLine {
+    /// a DEFtype statement, as text
+    Def(String),
+    /// DIM of a bare name
+    Dim(String),
+    Asg(String, Option<Q>, DVal),
+    Pr(String, Option<Q>),
+    /// PRINT LEN(variable): 2, 4, 4, 8 bytes, or the length of the string
+    Len(String, Option<Q>),
+    /// call of SUB Proc<k>, with an argument iff the SUB has a parameter
+    Call(usize, Option<DVal>),
+    /// SUB Proc<k> [(bare parameter)]
+    Sub(usize, Option<String>),
+    EndSub,
+}
+
+fn d_val(v: &DVal) -> String {
+    match v {
+        DVal::Frac(t) => format!("{}.75", t),
+        DVal::Whole(t) => format!("{}", t),
+        DVal::Big => "16777217".into(),
+        DVal::Text(t) => format!("\"s{}\"", t),
+    }
+}
+
+fn d_lines(s: &[DLine]) -> Vec<String> {
+    let mut inside = false;
+    let sp = |n: &str, q: &Option<Q>| format!("{}{}", n, q.map(|q| q.sfx()).unwrap_or(""));
+    s.iter()
+        .map(|l| {
+            let t = match l {
+                DLine::Def(t) => t.clone(),
+                DLine::Dim(n) => format!("DIM {}", n),
+                DLine::Asg(n, q, v) => format!("{} = {}", sp(n, q), d_val(v)),
+                DLine::Pr(n, q) => format!("PRINT {}", sp(n, q)),
+                DLine::Len(n, q) => format!("PRINT LEN({})", sp(n, q)),
+                DLine::Call(k, None) => format!("Proc{}", k),
+                DLine::Call(k, Some(v)) => format!("Proc{} {}", k, d_val(v)),
+                DLine::Sub(k, None) => format!("SUB Proc{}", k),
+                DLine::Sub(k, Some(p)) => format!("SUB Proc{} ({})", k, p),
+                DLine::EndSub => "END SUB".into(),
+            };
+            let indent = inside && *l != DLine::EndSub;
+            match l {
+                DLine::Sub(..) => inside = true,
+                DLine::EndSub => inside = false,
+                _ => {}
+            }
+            if indent { format!("  {}", t) } else { t }
+        })
+        .collect()
+}
+
+fn d_text(s: &[DLine]) -> String {
+    let mut t = d_lines(s).join("\n");
+    t.push('\n');
+    t
+}
+
+#[derive(Clone, Debug)]
+enum DV {
+    N(f64),
+    S(String),
+}
+
+/// the value a variable of type `q` holds after storing `v`; None = Overflow
+fn d_cast(q: Q, v: &DVal) -> Option<DV> {
+    Some(match (v, q) {
+        (DVal::Text(t), _) => DV::S(format!("s{}", t)),
+        (DVal::Frac(t), Q::Int | Q::Lng) => DV::N((*t + 1) as f64),
+        (DVal::Frac(t), _) => DV::N(*t as f64 + 0.75),
+        (DVal::Whole(t), _) => DV::N(*t as f64),
+        (DVal::Big, Q::Int) => return None,
+        (DVal::Big, Q::Sng) => DV::N(16777216.0),
+        (DVal::Big, _) => DV::N(16777217.0),
+    })
+}
+
+type DKey = (String, String, Q);
+
+/// What the property prescribes for a default-type script: `rejected`, or the printed lines (ending in
+/// `runtime-error Overflow` when 16777217 is stored in an INTEGER).  A variable is (scope or activation, name in
+/// upper case, type); the type of a bare spelling is `default_type_at` its line; a store or an argument of the
+/// other kind (string / number) and a DIM of a variable that exists already in its scope are rejected.
+fn d_expect(s: &[DLine]) -> String {
+    let lines = d_lines(s);
+    let ty = |at: usize, n: &str, sfx: &Option<Q>| sfx.unwrap_or_else(|| default_type_at(&lines, at, n));
+    let mut subs: HashMap<usize, usize> = HashMap::new();
+    for (i, l) in s.iter().enumerate() {
+        if let DLine::Sub(k, _) = l {
+            subs.insert(*k, i);
+        }
+    }
+    let param_type = |k: &usize| -> Option<(String, Q)> {
+        match &s[subs[k]] {
+            DLine::Sub(_, Some(p)) => Some((p.to_ascii_uppercase(), ty(subs[k], p, &None))),
+            _ => None,
+        }
+    };
+    // the checker
+    let mut scope = "main".to_owned();
+    let mut known: std::collections::HashSet<DKey> = Default::default();
+    for (i, l) in s.iter().enumerate() {
+        match l {
+            DLine::Sub(k, _) => {
+                scope = format!("sub{}", k);
+                if let Some((p, t)) = param_type(k) {
+                    known.insert((scope.clone(), p, t));
+                }
+            }
+            DLine::EndSub => scope = "main".into(),
+            DLine::Asg(n, sfx, v) => {
+                let t = ty(i, n, sfx);
+                if (t == Q::Str) != matches!(v, DVal::Text(_)) {
+                    return "rejected".into();
+                }
+                known.insert((scope.clone(), n.to_ascii_uppercase(), t));
+            }
+            DLine::Pr(n, sfx) | DLine::Len(n, sfx) => {
+                known.insert((scope.clone(), n.to_ascii_uppercase(), ty(i, n, sfx)));
+            }
+            DLine::Dim(n) => {
+                if !known.insert((scope.clone(), n.to_ascii_uppercase(), ty(i, n, &None))) {
+                    return "rejected".into();
+                }
+            }
+            DLine::Call(k, Some(v)) => {
+                if let Some((_, t)) = param_type(k) {
+                    if (t == Q::Str) != matches!(v, DVal::Text(_)) {
+                        return "rejected".into();
+                    }
+                }
+            }
+            DLine::Call(_, None) | DLine::Def(_) => {}
+        }
+    }
+    // the run
+    let mut store: HashMap<DKey, DV> = HashMap::new();
+    let mut out: Vec<String> = vec![];
+    let mut step = |l: &DLine, at: usize, scope: &str, store: &mut HashMap<DKey, DV>| -> bool {
+        match l {
+            DLine::Asg(n, sfx, v) => {
+                let t = ty(at, n, sfx);
+                match d_cast(t, v) {
+                    Some(x) => {
+                        store.insert((scope.to_owned(), n.to_ascii_uppercase(), t), x);
+                    }
+                    None => return false,
+                }
+            }
+            DLine::Pr(n, sfx) | DLine::Len(n, sfx) => {
+                let t = ty(at, n, sfx);
+                let v = store.get(&(scope.to_owned(), n.to_ascii_uppercase(), t));
+                let shown = if matches!(l, DLine::Len(..)) {
+                    match (t, v) {
+                        (Q::Int, _) => " 2".to_owned(),
+                        (Q::Lng | Q::Sng, _) => " 4".to_owned(),
+                        (Q::Dbl, _) => " 8".to_owned(),
+                        (Q::Str, Some(DV::S(x))) => format!(" {}", x.len()),
+                        (Q::Str, _) => " 0".to_owned(),
+                    }
+                } else {
+                    match v {
+                        None if t == Q::Str => String::new(),
+                        None => " 0".to_owned(),
+                        Some(DV::S(x)) => x.clone(),
+                        Some(DV::N(x)) if x.fract() == 0.0 => format!(" {}", *x as i64),
+                        Some(DV::N(x)) => format!(" {}", x),
+                    }
+                };
+                out.push(shown);
+            }
+            _ => {}
+        }
+        true
+    };
+    let mut overflow = false;
+    let mut calls = 0usize;
+    let mut i = 0usize;
+    'run: while i < s.len() {
+        match &s[i] {
+            DLine::Sub(..) => {
+                while s[i] != DLine::EndSub {
+                    i += 1;
+                }
+            }
+            DLine::Call(k, arg) => {
+                calls += 1;
+                let act = format!("sub{}#{}", k, calls);
+                if let (Some((p, t)), Some(v)) = (param_type(k), arg) {
+                    match d_cast(t, v) {
+                        Some(x) => {
+                            store.insert((act.clone(), p, t), x);
+                        }
+                        None => {
+                            overflow = true;
+                            break 'run;
+                        }
+                    }
+                }
+                let mut b = subs[k] + 1;
+                while s[b] != DLine::EndSub {
+                    if !step(&s[b], b, &act, &mut store) {
+                        overflow = true;
+                        break 'run;
+                    }
+                    b += 1;
+                }
+            }
+            other => {
+                if !step(other, i, "main", &mut store) {
+                    overflow = true;
+                    break 'run;
+                }
+            }
+        }
+        i += 1;
+    }
+    let mut o = out.join("|").trim_end_matches('|').to_owned();
+    if overflow {
+        o.push_str("|runtime-error Overflow");
+    }
+    o
+}
+
+/// the observation, reduced to what `d_expect` talks about
+fn d_norm(got: &str) -> String {
+    if got.starts_with("rejected ") {
+        return "rejected".into();
+    }
+    match got.find("runtime-error ") {
+        Some(i) => format!(
+            "{}|runtime-error {}",
+            got[..i].trim_end_matches('|'),
+            if got[i..].contains("Overflow") { "Overflow" } else { &got[i + 14..] }
+        ),
+        None => got.to_owned(),
+    }
+}
+
+fn d_fails(s: &[DLine]) -> Option<(String, String)> {
+    let want = d_expect(s);
+    let got = observe(&d_text(s));
+    if d_norm(&got) != want { Some((got, want)) } else { None }
+}
+
+/// greedy shrinking: drop whole SUBs (with their calls), then single lines, while the script still fails
+fn d_shrink(mut s: Vec<DLine>) -> Vec<DLine> {
+    let mut budget = 400usize;
+    loop {
+        let mut progress = false;
+        let ks: Vec<usize> = s.iter().filter_map(|l| if let DLine::Sub(k, _) = l { Some(*k) } else { None }).collect();
+        for k in ks {
+            let mut cand = vec![];
+            let mut skipping = false;
+            for l in &s {
+                match l {
+                    DLine::Sub(j, _) if *j == k => skipping = true,
+                    DLine::EndSub if skipping => skipping = false,
+                    DLine::Call(j, _) if *j == k => {}
+                    other if !skipping => cand.push(other.clone()),
+                    _ => {}
+                }
+            }
+            if budget > 0 {
+                budget -= 1;
+                if d_fails(&cand).is_some() {
+                    s = cand;
+                    progress = true;
+                }
+            }
+        }
+        let mut i = s.len();
+        while i > 0 {
+            i -= 1;
+            if matches!(s[i], DLine::Sub(..) | DLine::EndSub) || budget == 0 {
+                continue;
+            }
+            let mut cand = s.clone();
+            cand.remove(i);
+            budget -= 1;
+            if d_fails(&cand).is_some() {
+                s = cand;
+                progress = true;
+            }
+        }
+        if !progress || budget == 0 {
+            return s;
+        }
+    }
+}
+
+fn recase(rng: &mut Rng, s: &str) -> String {
+    match rng.below(4) {
+        0 => s.to_ascii_uppercase(),
+        1 => s.to_ascii_lowercase(),
+        2 => s.chars().map(|c| if rng.chance(1, 2) { c.to_ascii_uppercase() } else { c.to_ascii_lowercase() }).collect(),
+        _ => s.to_owned(),
+    }
+}
+
+fn shuffle<T>(rng: &mut Rng, v: &mut [T]) {
+    for i in (1..v.len()).rev() {
+        let j = rng.below(i as u64 + 1) as usize;
+        v.swap(i, j);
+    }
+}
+
+fn gen_def_line(rng: &mut Rng, names: &[String]) -> String {
+    let q = *rng.pick(&ALLQ);
+    let n = 1 + rng.below(2);
+    let mut ranges = vec![];
+    for _ in 0..n {
+        let rand_from = |rng: &mut Rng, lo: u8| lo + rng.below((b'Z' - lo + 1) as u64) as u8;
+        let (lo, hi) = if rng.chance(2, 3) {
+            let l = rng.pick(names).as_bytes()[0].to_ascii_uppercase();
+            match rng.below(4) {
+                0 => (l, l),
+                1 => (b'A', b'Z'),
+                2 => (b'A' + rng.below((l - b'A' + 1) as u64) as u8, rand_from(rng, l)),
+                _ => (l, rand_from(rng, l)),
+            }
+        } else {
+            let lo = rand_from(rng, b'A');
+            (lo, rand_from(rng, lo))
+        };
+        let mut c = |x: u8| (if rng.chance(1, 2) { x.to_ascii_lowercase() } else { x }) as char;
+        let (a, b) = (c(lo), c(hi));
+        ranges.push(if lo == hi && rng.chance(2, 3) { format!("{}", a) } else { format!("{}-{}", a, b) });
+    }
+    format!("{} {}", recase(rng, q.def_kw()), ranges.join(", "))
+}
+
+/// a store / PRINT / PRINT LEN / DIM of some spelling of one of the names, placed after the lines `so_far`;
+/// the rule is used only to make most stores well typed
+fn gen_probe(rng: &mut Rng, so_far: &[DLine], names: &[String], tag: &mut u32) -> DLine {
+    let lines = d_lines(so_far);
+    let base = rng.pick(names).clone();
+    let name = recase(rng, &base);
+    let cur = default_type_at(&lines, lines.len(), &name);
+    let sfx = if rng.chance(3, 5) {
+        None
+    } else if rng.chance(1, 2) {
+        Some(cur)
+    } else {
+        Some(*rng.pick(&ALLQ))
+    };
+    let t = sfx.unwrap_or(cur);
+    match rng.below(40) {
+        0..=17 => {
+            *tag += 1;
+            let v = if t == Q::Str {
+                if rng.chance(1, 50) { DVal::Frac(*tag) } else { DVal::Text(*tag) }
+            } else {
+                match rng.below(60) {
+                    0 => DVal::Text(*tag),
+                    1..=6 if t != Q::Int || rng.chance(1, 4) => DVal::Big,
+                    1..=18 => DVal::Whole(*tag),
+                    _ => DVal::Frac(*tag),
+                }
+            };
+            DLine::Asg(name, sfx, v)
+        }
+        18..=30 => DLine::Pr(name, sfx),
+        31..=38 => DLine::Len(name, sfx),
+        _ => DLine::Dim(name),
+    }
+}
+
+/// 0-3 DEFtype statements (five kinds, letters and ranges in both cases, overlapping) anywhere among the top-level
+/// items: at the top, between the statements of the main module, between the main module and the SUBs, between
+/// and after the SUBs; never inside a SUB
+fn gen_deftype_script(rng: &mut Rng) -> Vec<DLine> {
+    const TAILS: [&str; 5] = ["", "q", "Qx", "qzw9", "qRatioLongName"];
+    let l0 = b'a' + rng.below(26) as u8;
+    let n_names = 2 + rng.below(2) as usize;
+    let mut names: Vec<String> = vec![];
+    for i in 0..n_names {
+        let l = match rng.below(3) {
+            0 => l0,
+            1 => b'a' + (l0 - b'a' + 1 + rng.below(3) as u8) % 26,
+            _ => b'a' + rng.below(26) as u8,
+        };
+        names.push(format!("{}{}", l as char, TAILS[i + rng.below(2) as usize]));
+    }
+    #[derive(Clone, Copy)]
+    enum Slot {
+        M,
+        D,
+        S(usize),
+        C(usize),
+    }
+    let n_defs = rng.below(4) as usize;
+    let n_subs = rng.below(3) as usize;
+    let n_main = 3 + rng.below(6) as usize;
+    let mut main_part: Vec<Slot> = vec![Slot::M; n_main];
+    for k in 0..n_subs {
+        for _ in 0..1 + rng.below(2) {
+            main_part.push(Slot::C(k));
+        }
+    }
+    shuffle(rng, &mut main_part);
+    let mut slots: Vec<Slot> = vec![];
+    match rng.below(10) {
+        0 => {
+            slots.extend(std::iter::repeat(Slot::D).take(n_defs));
+            main_part.extend((0..n_subs).map(Slot::S));
+            shuffle(rng, &mut main_part);
+            slots.extend(main_part);
+        }
+        1..=3 => {
+            slots.extend(main_part);
+            let mut rest: Vec<Slot> = std::iter::repeat(Slot::D).take(n_defs).chain((0..n_subs).map(Slot::S)).collect();
+            shuffle(rng, &mut rest);
+            slots.extend(rest);
+        }
+        _ => {
+            slots.extend(main_part);
+            slots.extend(std::iter::repeat(Slot::D).take(n_defs));
+            slots.extend((0..n_subs).map(Slot::S));
+            shuffle(rng, &mut slots);
+        }
+    }
+    let mut s: Vec<DLine> = vec![];
+    let mut tag = 0u32;
+    for slot in slots {
+        match slot {
+            Slot::D => s.push(DLine::Def(gen_def_line(rng, &names))),
+            Slot::M => {
+                let l = gen_probe(rng, &s, &names, &mut tag);
+                s.push(l);
+            }
+            Slot::C(k) => s.push(DLine::Call(k, None)),
+            Slot::S(k) => {
+                let base = rng.pick(&names).clone();
+                let param = if rng.chance(1, 2) { Some(recase(rng, &base)) } else { None };
+                s.push(DLine::Sub(k, param));
+                for _ in 0..1 + rng.below(4) {
+                    let l = gen_probe(rng, &s, &names, &mut tag);
+                    s.push(l);
+                }
+                s.push(DLine::EndSub);
+            }
+        }
+    }
+    // arguments: mostly of the parameter's kind
+    let lines = d_lines(&s);
+    for i in 0..s.len() {
+        if let DLine::Call(k, _) = s[i] {
+            let header = s.iter().position(|l| matches!(l, DLine::Sub(j, _) if *j == k)).unwrap();
+            if let DLine::Sub(_, Some(p)) = &s[header] {
+                let t = default_type_at(&lines, header, p);
+                tag += 1;
+                let v = if (t == Q::Str) != rng.chance(1, 40) {
+                    DVal::Text(tag)
+                } else if t != Q::Int && rng.chance(1, 6) {
+                    DVal::Big
+                } else {
+                    DVal::Frac(tag)
+                };
+                s[i] = DLine::Call(k, Some(v));
+            }
+        }
+    }
+    s
+}
+
+/// does this DEFtype line cover the first letter of `name` (all five keywords have six letters)
+fn def_covers(line: &str, name: &str) -> bool {
+    let up = line.trim().to_ascii_uppercase();
+    default_type_at(&[format!("DEFINT{}", &up[6..])], 1, name) == Q::Int
+}
+
+/// where the bare spellings of a script sit relative to the DEFtype statements covering their first letter
+fn d_positions(s: &[DLine], rep: &mut Report) {
+    let lines = d_lines(s);
+    for (i, l) in s.iter().enumerate() {
+        let n = match l {
+            DLine::Asg(n, None, _) | DLine::Pr(n, None) | DLine::Len(n, None) | DLine::Dim(n) | DLine::Sub(_, Some(n)) => n,
+            _ => continue,
+        };
+        let covered_before = (0..i).any(|j| matches!(s[j], DLine::Def(_)) && def_covers(&lines[j], n));
+        let same_at_end = default_type_at(&lines, i, n) == default_type_at(&lines, lines.len(), n);
+        rep.bump(match (covered_before, same_at_end) {
+            (false, true) => "defpos.bare.no-covering-deftype-before.same-as-final-table",
+            (false, false) => "defpos.bare.no-covering-deftype-before.final-table-differs",
+            (true, true) => "defpos.bare.after-covering-deftype.same-as-final-table",
+            (true, false) => "defpos.bare.after-covering-deftype.final-table-differs",
+        });
+    }
+}
+
+fn deftype_position_family(rep: &mut Report, rng: &mut Rng, n: usize) {
+    let mut shrunk = 0usize;
+    for i in 0..n {
+        let s = gen_deftype_script(rng);
+        let text = d_text(&s);
+        rep.case(Some(format!("defpos:{}", text)));
+        d_positions(&s, rep);
+        rep.bump(&format!("defpos.deftype-statements.{}", s.iter().filter(|l| matches!(l, DLine::Def(_))).count()));
+        let want = d_expect(&s);
+        let got = observe(&text);
+        rep.bump(if want == "rejected" {
+            "defpos.expected.rejected"
+        } else if want.ends_with("Overflow") {
+            "defpos.expected.runs-into-overflow"
+        } else {
+            "defpos.expected.runs"
+        });
+        if i == 7 {
+            rep.sample(J::s(format!("{} => {}", text.replace('\n', " : "), got)));
+        }
+        if d_norm(&got) != want {
+            let (input, got, want) = if shrunk < 4 {
+                shrunk += 1;
+                let small = d_shrink(s);
+                match d_fails(&small) {
+                    Some((g, w)) => (d_text(&small), g, w),
+                    None => (text, got, want),
+                }
+            } else {
+                (text, got, want)
+            };
+            rep.fail(Failure {
+                kind: Kind::ImplVsProperty,
+                signature: "rule:default-type-at-position".into(),
+                input,
+                implementation: got,
+                expected: want,
+                note: "a bare name is the variable of the default type of its first letter where it stands: the last \
+                       DEFtype statement before it in the text that covers the letter, SINGLE if none (values: t.75 \
+                       prints t+1 in an INTEGER / LONG; LEN gives 2 / 4 / 4 / 8; 16777217 is 16777216 in a SINGLE and \
+                       overflows an INTEGER; a string store is rejected unless the type is STRING)"
+                    .into(),
+            });
+        }
+    }
+}
+
+// ------------------------------------------------------------------------------------------------
+// behavioural oracles, no model, whole-text parse: (b) letter case of every kind of identifier
+// ------------------------------------------------------------------------------------------------
+
+/// one independent program fragment per kind of identifier: `{k}` is an occurrence of the fragment's k-th name
+struct CTemplate {
+    kind: &'static str,
+    slots: usize,
+    /// declarations before the main module's statements / statements / procedures after them
+    sections: [&'static [&'static str]; 3],
+    want: &'static [&'static str],
+}
+
+const CASE_TEMPLATES: [CTemplate; 12] = [
+    CTemplate { kind: "variable", slots: 1, sections: [&[], &["{0} = 5", "{0} = {0} + 1", "PRINT {0}"], &[]], want: &[" 6"] },
+    CTemplate {
+        kind: "string-variable",
+        slots: 1,
+        sections: [&[], &["{0}$ = \"ab\"", "PRINT {0}$ + \"c\""], &[]],
+        want: &["abc"],
+    },
+    CTemplate {
+        kind: "array",
+        slots: 1,
+        sections: [&[], &["DIM {0}(1 TO 3)", "{0}(2) = 8", "PRINT {0}(2) + {0}(1)"], &[]],
+        want: &[" 8"],
+    },
+    CTemplate {
+        kind: "sub+parameter",
+        slots: 2,
+        sections: [&[], &["{0} 4"], &["SUB {0} ({1})", "  PRINT {1} * 2", "END SUB"]],
+        want: &[" 8"],
+    },
+    CTemplate {
+        kind: "function+parameter",
+        slots: 2,
+        sections: [&[], &["PRINT {0}(3)"], &["FUNCTION {0} ({1})", "  {0} = {1} + 1", "END FUNCTION"]],
+        want: &[" 4"],
+    },
+    CTemplate {
+        kind: "label",
+        slots: 1,
+        sections: [&[], &["GOTO {0}", "PRINT \"skipped\"", "{0}:", "PRINT \"at label\""], &[]],
+        want: &["at label"],
+    },
+    CTemplate {
+        kind: "gosub-label",
+        slots: 2,
+        sections: [&[], &["GOSUB {0}", "GOTO {1}", "{0}:", "PRINT \"in routine\"", "RETURN", "{1}:"], &[]],
+        want: &["in routine"],
+    },
+    CTemplate {
+        kind: "type+field",
+        slots: 3,
+        sections: [
+            &["TYPE {0}", "  {1} AS INTEGER", "END TYPE"],
+            &["DIM {2} AS {0}", "{2}.{1} = 9", "PRINT {2}.{1}"],
+            &[],
+        ],
+        want: &[" 9"],
+    },
+    CTemplate { kind: "const", slots: 1, sections: [&[], &["CONST {0} = 41", "PRINT {0} + 1"], &[]], want: &[" 42"] },
+    CTemplate {
+        kind: "by-ref-parameter",
+        slots: 3,
+        sections: [&[], &["{0} = 1", "{1} {0}", "PRINT {0}"], &["SUB {1} ({2})", "  {2} = {2} + 10", "END SUB"]],
+        want: &[" 11"],
+    },
+    CTemplate {
+        kind: "shared-variable",
+        slots: 2,
+        sections: [&["DIM SHARED {0}"], &["{0} = 3", "{1}"], &["SUB {1}", "  PRINT {0}", "END SUB"]],
+        want: &[" 3"],
+    },
+    CTemplate {
+        kind: "as-type-variable",
+        slots: 1,
+        sections: [&[], &["DIM {0} AS LONG", "{0} = 70000", "PRINT {0}"], &[]],
+        want: &[" 70000"],
+    },
+];
+
+/// the slots of a template's occurrences, in text order within the fragment (sections in order)
+fn c_occurrences(t: &CTemplate) -> Vec<usize> {
+    let mut v = vec![];
+    for sec in t.sections {
+        for line in sec {
+            let b = line.as_bytes();
+            for i in 0..b.len().saturating_sub(2) {
+                if b[i] == b'{' && b[i + 1].is_ascii_digit() && b[i + 2] == b'}' {
+                    v.push((b[i + 1] - b'0') as usize);
+                }
+            }
+        }
+    }
+    v
+}
+
+/// a fragment with its names (one spelling per slot) and one spelling per occurrence
+#[derive(Clone)]
+struct CFeat {
+    t: usize,
+    names: Vec<String>,
+    spell: Vec<String>,
+}
+
+fn c_text(feats: &[CFeat], varied: bool) -> String {
+    let mut occ = vec![0usize; feats.len()];
+    let mut out = String::new();
+    for sec in 0..3 {
+        for (fi, f) in feats.iter().enumerate() {
+            for line in CASE_TEMPLATES[f.t].sections[sec] {
+                let b = line.as_bytes();
+                let mut i = 0;
+                while i < b.len() {
+                    if i + 2 < b.len() && b[i] == b'{' && b[i + 1].is_ascii_digit() && b[i + 2] == b'}' {
+                        let k = (b[i + 1] - b'0') as usize;
+                        out.push_str(if varied { &f.spell[occ[fi]] } else { &f.names[k] });
+                        occ[fi] += 1;
+                        i += 3;
+                    } else {
+                        out.push(b[i] as char);
+                        i += 1;
+                    }
+                }
+                out.push('\n');
+            }
+        }
+    }
+    out
+}
+
+fn c_want(feats: &[CFeat]) -> String {
+    feats.iter().flat_map(|f| CASE_TEMPLATES[f.t].want.iter().copied()).collect::<Vec<_>>().join("|")
+}
+
+/// the varied text gives something else than prescribed although the uniformly spelt text behaves
+fn c_fails(feats: &[CFeat]) -> Option<String> {
+    let want = c_want(feats);
+    let got = observe(&c_text(feats, true));
+    if got != want && observe(&c_text(feats, false)) == want { Some(got) } else { None }
+}
+
+/// fewer fragments, then fewer re-spelt occurrences, then fewer re-cased letters
+fn c_shrink(mut feats: Vec<CFeat>, deep: bool) -> Vec<CFeat> {
+    let mut budget = 600usize;
+    let mut attempt = |cand: &[CFeat]| -> bool {
+        if budget == 0 {
+            return false;
+        }
+        budget -= 1;
+        c_fails(cand).is_some()
+    };
+    let mut i = feats.len();
+    while i > 0 && feats.len() > 1 {
+        i -= 1;
+        let mut cand = feats.clone();
+        cand.remove(i);
+        if attempt(&cand) {
+            feats = cand;
+        }
+    }
+    for fi in 0..if deep { feats.len() } else { 0 } {
+        let occ = c_occurrences(&CASE_TEMPLATES[feats[fi].t]);
+        for (j, k) in occ.iter().enumerate() {
+            if feats[fi].spell[j] == feats[fi].names[*k] {
+                continue;
+            }
+            let mut cand = feats.clone();
+            cand[fi].spell[j] = feats[fi].names[*k].clone();
+            if attempt(&cand) {
+                feats = cand;
+                continue;
+            }
+            for p in 0..feats[fi].spell[j].len() {
+                let uniform = feats[fi].names[*k].as_bytes()[p];
+                if feats[fi].spell[j].as_bytes()[p] != uniform {
+                    let mut cand = feats.clone();
+                    let mut b = cand[fi].spell[j].clone().into_bytes();
+                    b[p] = uniform;
+                    cand[fi].spell[j] = String::from_utf8(b).unwrap();
+                    if attempt(&cand) {
+                        feats = cand;
+                    }
+                }
+            }
+        }
+    }
+    feats
+}
+
+/// identifier number `g` of the covering run: length 8..40, letter (g + j) mod 26 at position j, so that over 26
+/// consecutive numbers every letter stands at every position
+fn c_diagonal_name(g: usize) -> String {
+    let len = 8 + (g * 7) % 33;
+    (0..len).map(|j| (b'a' + ((g + j) % 26) as u8) as char).collect()
+}
+
+/// 1..40 letters (digits too after the first); lengths 2..9 get a J somewhere (no reserved word has one)
+fn c_random_name(rng: &mut Rng) -> String {
+    let len = match rng.below(4) {
+        0 => 1 + rng.below(7),
+        1 => 8 + rng.below(2),
+        2 => 10 + rng.below(15),
+        _ => 25 + rng.below(16),
+    } as usize;
+    let digits = rng.chance(1, 3);
+    let mut b: Vec<u8> = (0..len)
+        .map(|j| {
+            if j > 0 && digits && rng.chance(1, 6) {
+                b'0' + rng.below(10) as u8
+            } else {
+                (if rng.chance(1, 2) { b'a' } else { b'A' }) + rng.below(26) as u8
+            }
+        })
+        .collect();
+    if (2..=9).contains(&len) {
+        let p = rng.below(len as u64) as usize;
+        b[p] = if rng.chance(1, 2) { b'j' } else { b'J' };
+    }
+    String::from_utf8(b).unwrap()
+}
+
+fn swap_case(s: &str) -> String {
+    s.chars().map(|c| if c.is_ascii_lowercase() { c.to_ascii_uppercase() } else { c.to_ascii_lowercase() }).collect()
+}
+
+fn case_family(rep: &mut Report, rng: &mut Rng, n_covering: usize, n_random: usize) {
+    let mut g = 0usize;
+    let mut cover = [[false; 8]; 26];
+    let mut shrunk = 0usize;
+    for i in 0..n_covering + n_random {
+        let covering = i < n_covering;
+        g += 1;
+        // the fragments: each kind with probability 1/2, in random order (the covering run rotates through them)
+        let mut ts: Vec<usize> = (0..CASE_TEMPLATES.len()).filter(|_| rng.chance(1, 2)).collect();
+        if covering {
+            ts = (0..4).map(|j| (i * 4 + j) % CASE_TEMPLATES.len()).collect();
+        }
+        if ts.is_empty() {
+            ts.push(rng.below(CASE_TEMPLATES.len() as u64) as usize);
+        }
+        shuffle(rng, &mut ts);
+        let mut taken: std::collections::HashSet<String> = Default::default();
+        let mut feats: Vec<CFeat> = vec![];
+        for t in ts {
+            let tpl = &CASE_TEMPLATES[t];
+            let mut names = vec![];
+            for slot in 0..tpl.slots {
+                // `record.field` is one token for the parser's 40-character limit
+                let cap = if tpl.kind == "type+field" && slot > 0 { 19 } else { 40 };
+                loop {
+                    let mut cand = if covering {
+                        g += 1;
+                        recase(rng, &c_diagonal_name(g - 1))
+                    } else {
+                        c_random_name(rng)
+                    };
+                    cand.truncate(cap);
+                    if taken.insert(cand.to_ascii_uppercase()) {
+                        names.push(cand);
+                        break;
+                    }
+                }
+            }
+            // spellings: the first occurrence of a name as it is, the second with every letter in the other case,
+            // the others all upper / all lower / random per letter / unchanged
+            let mut seen = vec![0usize; tpl.slots];
+            let spell: Vec<String> = c_occurrences(tpl)
+                .iter()
+                .map(|k| {
+                    seen[*k] += 1;
+                    match seen[*k] {
+                        1 => names[*k].clone(),
+                        2 if covering || rng.chance(1, 3) => swap_case(&names[*k]),
+                        _ => recase(rng, &names[*k]),
+                    }
+                })
+                .collect();
+            for (j, k) in c_occurrences(tpl).iter().enumerate() {
+                for (p, (a, b)) in names[*k].bytes().zip(spell[j].bytes()).enumerate() {
+                    if a != b && a.is_ascii_alphabetic() {
+                        cover[(a.to_ascii_lowercase() - b'a') as usize][p % 8] = true;
+                    }
+                }
+                rep.bump(&format!("case.identifier-length.{}", match names[*k].len() { 1..=7 => "1-7", 8..=15 => "8-15", 16..=23 => "16-23", _ => "24-40" }));
+            }
+            rep.bump(&format!("case.kind.{}", tpl.kind));
+            feats.push(CFeat { t, names, spell });
+        }
+        let uniform = c_text(&feats, false);
+        let varied = c_text(&feats, true);
+        rep.case(Some(format!("case:{}", varied)));
+        let want = c_want(&feats);
+        let got_uniform = observe(&uniform);
+        let got_varied = observe(&varied);
+        if i == 3 {
+            rep.sample(J::s(format!("{} => {}", varied.replace('\n', " : "), got_varied)));
+        }
+        if got_uniform != want {
+            rep.fail(Failure {
+                kind: Kind::ImplVsProperty,
+                signature: "case:uniformly-spelt-script".into(),
+                input: uniform.clone(),
+                implementation: got_uniform.clone(),
+                expected: want.clone(),
+                note: "every name spelt the same way at all its occurrences: the fragments print their fixed lines".into(),
+            });
+        }
+        if got_varied != want && got_uniform == want {
+            // the first failures are shrunk down to single letters, the next ones to as few fragments as possible
+            let (small, got) = if shrunk < 40 {
+                shrunk += 1;
+                let small = c_shrink(feats.clone(), shrunk <= 4);
+                match c_fails(&small) {
+                    Some(g) => (small, g),
+                    None => (feats.clone(), got_varied.clone()),
+                }
+            } else {
+                (feats.clone(), got_varied.clone())
+            };
+            let kinds: Vec<&str> = small.iter().map(|f| CASE_TEMPLATES[f.t].kind).collect();
+            rep.fail(Failure {
+                kind: Kind::ImplVsProperty,
+                signature: format!("rule:case-insensitive-names:{}", if shrunk < 40 { kinds.join(",") } else { "not-shrunk".into() }),
+                input: c_text(&small, true),
+                implementation: got,
+                expected: format!("{} (as printed by the uniformly spelt text: {})", c_want(&small), c_text(&small, false).replace('\n', " : ")),
+                note: "identifiers differing only in letter case are the same name: re-casing the occurrences of the \
+                       names must not change what the program does"
+                    .into(),
+            });
+        }
+    }
+    let cells = cover.iter().flatten().filter(|x| **x).count();
+    rep.notes.push(format!(
+        "letter case: {} scripts ({} of the covering run with names of 8..40 letters); {} of the 26 x 8 (letter, position mod 8) \
+         cells had an occurrence differing in case from another occurrence of the same name",
+        n_covering + n_random, n_covering, cells
+    ));
+    if cells < 26 * 8 {
+        rep.fail(Failure {
+            kind: Kind::ModelVsImpl,
+            signature: "harness:case-coverage".into(),
+            input: format!("{} of 208 cells", cells),
+            implementation: String::new(),
+            expected: "208".into(),
+            note: "the covering run of the letter-case family did not put every letter at every position mod 8".into(),
+        });
+    }
+}
+
+// ------------------------------------------------------------------------------------------------
 
 fn main() {
     if std::env::var("VERIF_DEBUG").is_err() {
@@ -1264,7 +2217,10 @@ fn main() {
         "scripts (DEFtype + DIM/CONST/assign/PRINT of bare, suffixed and AS-type spellings of one base name in main \
          module and SUB/FUNCTION bodies with parameters) rendered as BASIC text: class = program text (every script is \
          non-trivial: it contains at least one declaration or use); DEFtype tables: class = statement sequence; \
-         case-insensitive equality: class = byte pair; letter index: class = byte; rule oracles: class = program text",
+         case-insensitive equality: class = byte pair; letter index: class = byte; rule oracles: class = program text; \
+         default type at a position (0-3 DEFtype statements anywhere among main-module statements and SUBs, stores / \
+         PRINT / PRINT LEN / DIM of bare and suffixed spellings): class = program text; letter case (fragments for every \
+         kind of identifier, names of 1..40 characters, occurrences re-cased): class = program text",
     );
     let thorough = rep.is_thorough();
     let mut asm = Assembler::default();
@@ -1574,11 +2530,109 @@ fn main() {
         ));
     }
 
+    {
+        // names of up to 40 characters (the parser's limit): equality and hash of the real CaseInsensitiveString
+        // against plain upper-casing; every letter gets re-cased at every position
+        use std::hash::{Hash, Hasher};
+        let hash_of = |s: &CaseInsensitiveString| {
+            let mut h = std::collections::hash_map::DefaultHasher::new();
+            s.hash(&mut h);
+            h.finish()
+        };
+        // a generator of its own (derived from the seed): the streams of the model comparisons stay what they were
+        let mut rng = Rng(rng.seed() ^ 0xC13_0001);
+        let n_rand = if thorough { 400_000 } else { 40_000 };
+        for i in 0..n_rand {
+            let n = 1 + rng.below(40) as usize;
+            let a: Vec<u8> = (0..n)
+                .map(|j| {
+                    if j > 0 && rng.chance(1, 10) {
+                        b'0' + rng.below(10) as u8
+                    } else {
+                        // the covering part: letter (i + j) mod 26 at position j
+                        let l = if i < 52 { ((i + j) % 26) as u8 } else { rng.below(26) as u8 };
+                        (if rng.chance(1, 2) { b'a' } else { b'A' }) + l
+                    }
+                })
+                .collect();
+            let b: Vec<u8> = match rng.below(4) {
+                0 => a.iter().map(|c| if c.is_ascii_lowercase() { c.to_ascii_uppercase() } else { c.to_ascii_lowercase() }).collect(),
+                1 | 2 => {
+                    let mut b = a.clone();
+                    for _ in 0..1 + rng.below(3) {
+                        let p = rng.below(n as u64) as usize;
+                        b[p] = if b[p].is_ascii_lowercase() { b[p].to_ascii_uppercase() } else { b[p].to_ascii_lowercase() };
+                    }
+                    b
+                }
+                _ => {
+                    let mut b = a.clone();
+                    let p = rng.below(n as u64) as usize;
+                    b[p] = b'A' + (b[p].to_ascii_uppercase().wrapping_sub(b'A').wrapping_add(1 + rng.below(25) as u8)) % 26;
+                    b
+                }
+            };
+            rep.case(Some(format!("ci-long:{:?}:{:?}", a, b)));
+            rep.bump(if n < 8 { "ci-long.length.1-7" } else if n < 16 { "ci-long.length.8-15" } else { "ci-long.length.16-40" });
+            let sa = CaseInsensitiveString::new(String::from_utf8(a.clone()).unwrap());
+            // a failing pair is reduced to one differing position when that still fails
+            let bad = |a: &[u8], b: &[u8]| {
+                let x = CaseInsensitiveString::new(String::from_utf8_lossy(a).into_owned());
+                let y = CaseInsensitiveString::new(String::from_utf8_lossy(b).into_owned());
+                let spec = a.to_ascii_uppercase() == b.to_ascii_uppercase();
+                (x == y) != spec || (spec && hash_of(&x) != hash_of(&y))
+            };
+            let mut b = b;
+            if bad(&a, &b) {
+                for p in 0..n {
+                    let mut c = a.clone();
+                    c[p] = b[p];
+                    if c != a && bad(&a, &c) {
+                        b = c;
+                        break;
+                    }
+                }
+            }
+            let sb = CaseInsensitiveString::new(String::from_utf8(b.clone()).unwrap());
+            let spec = a.to_ascii_uppercase() == b.to_ascii_uppercase();
+            let real = sa == sb;
+            let input = format!("{:?} == {:?}", String::from_utf8_lossy(&a), String::from_utf8_lossy(&b));
+            if real != spec {
+                rep.fail(Failure {
+                    kind: Kind::ImplVsProperty,
+                    signature: "case-insensitive-eq:long-names".into(),
+                    input: input.clone(),
+                    implementation: real.to_string(),
+                    expected: spec.to_string(),
+                    note: "identifiers differing only in letter case are the same name (names of 1..40 characters)".into(),
+                });
+            }
+            if spec && hash_of(&sa) != hash_of(&sb) {
+                rep.fail(Failure {
+                    kind: Kind::ImplVsProperty,
+                    signature: "case-insensitive-hash:long-names".into(),
+                    input,
+                    implementation: "different hashes".into(),
+                    expected: "equal hashes".into(),
+                    note: "names that are the same up to letter case must hash alike (the name tables are hash maps)".into(),
+                });
+            }
+        }
+    }
+
     lap("ciEq done", &asm);
     // ---- 3. rule oracles on the real code --------------------------------------------------------
     property_oracles(&mut rep);
 
     lap("oracles done", &asm);
+    // ---- 3b. behavioural oracles: default type at a position, letter case (whole-text parse, no model) -------
+    {
+        let mut sub = Rng(rng.seed() ^ 0xC13_0002);
+        deftype_position_family(&mut rep, &mut sub, if thorough { 20_000 } else { 900 });
+        lap("default type at a position done", &asm);
+        case_family(&mut rep, &mut sub, if thorough { 520 } else { 78 }, if thorough { 6000 } else { 270 });
+        lap("letter case done", &asm);
+    }
     // ---- 4. scripts: exhaustive families ---------------------------------------------------------
     let mut total_scripts = 0usize;
     {
